@@ -187,18 +187,18 @@ GhostStep(g, prev, r) ==
               \cup (IF op = "erase" THEN rel ELSE {})
       inf2 == { e \in inf1 : e.pid \notin done }
       inUn0 == IF isConn THEN {} ELSE g.inUn
-      inUn1 == IF IsRecv(r, {"publish"}) /\ p.qos > 0 /\ ~HasErr(out) THEN inUn0 \cup {p.pid} ELSE inUn0
+      inUn1 == IF IsRecv(r, {"publish"}) /\ p.qos > 0 /\ (~HasErr(out) \/ RecvsK(out, {"publish"}) # <<>>) THEN inUn0 \cup {p.pid} ELSE inUn0
       inUn2 == inUn1 \ { out[i].pkt.pid : i \in { j \in DOMAIN out : out[j].ev = "send" /\
                     (out[j].pkt.kind \in {"puback", "pubcomp"} \/ (out[j].pkt.kind = "pubrec" /\ out[j].pkt.rc >= 128)) } }
       (* --- aliases --- *)
       rx0 == IF isConn \/ op \in {"closed", "crash"} THEN {} ELSE g.rx
       ai0 == IF isConn \/ op \in {"closed", "crash"} THEN {} ELSE g.aliasIn
-      ai1 == IF IsRecv(r, {"publish"}) /\ p.topic # "" /\ p.alias # 0 /\ RecvsK(out, {"publish"}) # <<>>
+      ai1 == IF IsRecv(r, {"publish"}) /\ p.topic # "" /\ p.alias # 0 /\ ~HasErr(out)
              THEN MapPut(ai0, p.alias, p.topic) ELSE ai0
   IN
   [g EXCEPT
      !.role = IF op = "new" THEN r.call.role ELSE @,
-     !.ver  = IF op = "new" THEN r.call.ver ELSE IF ConnectRecvd(r) /\ g.ver = "undet" THEN cp.ver ELSE @,
+     !.ver  = IF op = "new" THEN r.call.ver ELSE IF g.ver = "undet" THEN r.obs.ver ELSE @,      \* get_protocol_version()
      !.idw  = IF op = "new" THEN r.call.idw ELSE @,
      !.tr   = IF op \in {"closed", "crash"} THEN FALSE ELSE IF ConnectSent(r) \/ op = "recv" THEN TRUE ELSE @,
      !.closeReq = IF op \in {"closed", "crash"} THEN FALSE ELSE @ \/ HasClose(out),
@@ -312,7 +312,7 @@ ViolC06(g, prev, r, g2) ==
         THEN {"C06b-stored-form"} ELSE {})
   \cup (IF g2.persistent /\ \E i \in DOMAIN r.obs.stored : r.obs.stored[i].pid \notin SeqToSet(r.dig.used)
         THEN {"C06b-stored-id-not-held"} ELSE {})
-  \cup (IF IsRecv(r, ackKinds) /\ r.call.flag /\ g.conn # "disc" /\ p.size <= g.ownMPS /\ ~r.panic
+  \cup (IF IsRecv(r, ackKinds) /\ r.call.flag /\ g.conn # "disc" /\ p.size <= g.ownMPS /\ ~r.panic /\ p.pid # 0
            /\ AwaitOf(g, p.pid) # p.kind
            /\ ~( HasErrNamed(r.out, {"ProtocolError"}) /\ RelSet(r.out) = {}
                  /\ r.obs.stored = prev.obs.stored
@@ -335,10 +335,11 @@ ViolC06(g, prev, r, g2) ==
 (* does an inbound PUBLISH pass the checks the connection is allowed to make before delivering it *)
 PassesValidation(g, p) ==
   /\ g.ver \in {"v311", "v50"} /\ p.ver = g.ver /\ p.bad = ""
+  /\ g.conn # "disc"                  \* on a connection that is established or being established
   /\ p.size <= g.ownMPS
   /\ (p.qos > 0 => p.pid # 0)
   /\ g.ver = "v50" =>
-       /\ (p.qos > 0 /\ g.ownRM > 0 => (p.pid \in g.inUn \/ Cardinality(g.inUn) < g.ownRM))
+       /\ (p.qos > 0 /\ g.ownRM > 0 => Cardinality(g.inUn) < g.ownRM)
        /\ IF p.topic = "" THEN p.alias # 0 /\ p.alias <= g.ownTAM /\ MapGet(g.aliasIn, p.alias) # ""
           ELSE p.alias = 0 \/ p.alias <= g.ownTAM
 (* ... and one it may NOT deliver (so that either outcome is tolerated in between) *)
@@ -355,7 +356,7 @@ ViolC07(g, prev, r, g2) ==
    THEN {"C07a-validated-publish-swallowed"} ELSE {})
   \cup (IF IsRecv(r, {"publish"}) /\ r.call.flag /\ p.qos = 2 /\ PassesValidation(g, p) /\ ~r.panic
            /\ p.pid \in g.handled
-           /\ (RecvdPid(r.out, {"publish"}, p.pid) \/ (g.conn = "connected" /\ ~SentPid(r.out, {"pubrec"}, p.pid)))
+           /\ (RecvdPid(r.out, {"publish"}, p.pid) \/ (g.conn = "connected" /\ g.peerMPS >= 6 /\ ~SentPid(r.out, {"pubrec"}, p.pid)))
         THEN {"C07b-duplicate-not-suppressed"} ELSE {})
   \cup (IF ~r.panic /\ Op(r) # "new" /\ SeqToSet(r.obs.qos2) # g2.handled THEN {"C07c-handled-set"} ELSE {})
 
